@@ -80,6 +80,9 @@ pub fn probes_map(w: &World) -> BTreeMap<String, u64> {
             m.insert(k, x.as_u64().unwrap_or(0));
         }
     }
+    for (k, x) in &w.extra_probes {
+        *m.entry(k.clone()).or_default() += *x;
+    }
     m
 }
 
